@@ -72,6 +72,12 @@ func genCDXJSON(t *rapid.T) genDoc {
 			c.Members = append(c.Members, hx.M("bom-ref", hx.JString(ref)))
 			g.Declared = append(g.Declared, ref)
 		}
+		if rapid.IntRange(0, 2).Draw(t, "hasgroup") == 0 {
+			c.Members = append(c.Members, hx.M("group", hx.JString(rapid.SampledFrom([]string{"org.example", "g", "com.acme"}).Draw(t, "group"))))
+		}
+		if rapid.IntRange(0, 2).Draw(t, "samename") == 0 {
+			c.Set("name", hx.JString(rapid.SampledFrom([]string{"left-pad", "libfoo"}).Draw(t, "commonname")))
+		}
 		if rapid.Bool().Draw(t, "hasver") {
 			c.Members = append(c.Members, hx.M("version", hx.JString(jsonText().Draw(t, "cver"))))
 		}
@@ -91,7 +97,7 @@ func genCDXJSON(t *rapid.T) genDoc {
 			c.Members = append(c.Members, hx.M("licenses", hx.JArray(hx.JObject(hx.M("expression", hx.JString("MIT OR Apache-2.0"))))))
 		}
 		if rapid.Bool().Draw(t, "purl") {
-			c.Members = append(c.Members, hx.M("purl", hx.JString("pkg:npm/"+rapid.StringMatching(`[a-z]{1,5}`).Draw(t, "purlv"))))
+			c.Members = append(c.Members, hx.M("purl", hx.JString("pkg:npm/"+rapid.OneOf(rapid.StringMatching(`[a-z]{1,5}`), rapid.SampledFrom([]string{"left-pad@1.3.0", "a"})).Draw(t, "purlv"))))
 		}
 		if rapid.Bool().Draw(t, "extrefs") {
 			c.Members = append(c.Members, hx.M("externalReferences", hx.JArray(hx.JObject(hx.M("type", hx.JString(rapid.SampledFrom([]string{"vcs", "website", "other", "bom"}).Draw(t, "ert"))), hx.M("url", hx.JString("https://e.x/"+rapid.StringMatching(`[a-z]{0,5}`).Draw(t, "eru")))))))
